@@ -622,6 +622,79 @@ fn deftype_between_programs() -> Vec<(String, String)> {
     out
 }
 
+
+/// What is passed WITHOUT parentheses (by reference where the language passes by reference) to every parameter kind:
+/// (operand, what it is: 'i' INTEGER storage, 's' string storage (also fixed-length), 'n' storage of another numeric
+/// type, '?' a whole record / array under a name without subscripts — the verdict is not modelled, only soundness)
+const BYREF_OPERANDS: [(&str, char); 22] = [
+    ("I%", 'i'), ("R.N", 'i'), ("AI%(1)", 'i'), ("AR(1).N", 'i'), ("AI%(I%)", 'i'),
+    ("T$", 's'), ("FX", 's'), ("R.Code", 's'), ("AS$(1)", 's'), ("AF(1)", 's'), ("AR(1).Code", 's'),
+    ("L&", 'n'), ("S!", 'n'), ("D#", 'n'), ("Q", 'n'),
+    ("R", '?'), ("AR(1)", '?'), ("AI%", '?'), ("AS$", '?'), ("AF", '?'), ("AR", '?'), ("AI%()", '?'),
+];
+
+/// (call with @ for the operand, kind of the parameter that receives it: 'i' INTEGER, 's' STRING)
+const BYREF_CALLS: [(&str, char); 8] = [
+    ("PI @", 'i'), ("PS @", 's'), ("PI2 I%, @", 'i'), ("PI2 @, 3", 'i'), ("Q% = FI%(@)", 'i'), ("Q$ = FS$(@)", 's'),
+    ("CALL PI(@)", 'i'), ("PRINT FI%(@) + FI%(I%)", 'i'),
+];
+
+fn byref_case(call: usize, operand: usize, acc: &mut Acc, replay: Value) {
+    let (tpl, pk) = BYREF_CALLS[call];
+    let (opnd, ok) = BYREF_OPERANDS[operand];
+    let line = tpl.replace('@', opnd);
+    let text = format!("{}{}\n{}", PRELUDE, line, EPILOGUE);
+    let row = PRELUDE.matches('\n').count() as u32 + 1;
+    let o = run_pipeline(&text, &RunOpts { budget: 200_000, ..RunOpts::default() });
+    let must_accept = ok == pk;
+    let must_reject = ok != '?' && ok != pk;
+    match lint_kind(&o.end) {
+        Some((k, r)) => {
+            if must_accept {
+                acc.bad(format!("C12|byref|matching-rejected|{}", k), format!("`{}`: storage of the parameter's own type passed by reference is rejected with {}", line, k), text, replay);
+            } else if must_reject && !(k == "ArgumentTypeMismatch" || k == "TypeMismatch") {
+                acc.bad(format!("C12|byref|rejected-with-{}", k), format!("`{}`: rejected with {} instead of a type error", line, k), text, replay);
+            } else if must_reject && r != row {
+                acc.bad("C12|byref|row".into(), format!("`{}` is on row {}, the error says row {}", line, row, r), text, replay);
+            } else {
+                acc.hit(if must_reject { "byref:mismatch rejected" } else { "byref:unmodelled operand rejected" });
+            }
+        }
+        None if matches!(o.end, End::ParseError { .. }) => acc.hit("not-parsed"),
+        None => {
+            if must_reject {
+                acc.bad(format!("C12|byref|mismatch-accepted|{}", ok), format!("`{}`: a variable of another type is accepted for a by-reference parameter (run: {})", line, o.end.class()), text, replay);
+            } else if let Some(why) = unsound(&text, &o) {
+                acc.bad("C12|byref|unsound".into(), format!("`{}`: {}", line, why), text, replay);
+            } else if !matches!(o.end, End::Normal) {
+                acc.bad(format!("C12|byref|{}", o.end.class()), format!("`{}`: accepted, ends with {}", line, o.end.class()), text, replay);
+            } else {
+                acc.hit(if must_accept { "byref:matching accepted and ran" } else { "byref:unmodelled operand accepted and ran" });
+            }
+        }
+    }
+}
+
+/// REDIM x(...) AS type followed by a REDIM of the same array that leaves the type out: the array keeps its element
+/// type whatever the default type of its name is. (program, expected output)
+fn redim_keeps_type_programs() -> Vec<(String, String)> {
+    let mut out = vec![];
+    for (ty, v1, v2, shown) in [("INTEGER", "2.75", "3.25", " 3  3 "), ("LONG", "70000.25", "70001.25", " 70000  70001 "), ("SINGLE", "1.5", "2.5", " 1.5  2.5 "), ("DOUBLE", "2.25#", "4.25#", " 2.25  4.25 "), ("STRING", "\"alpha\"", "\"gamma\"", "alphagamma")] {
+        for head in ["", "DEFINT A-Z\n", "DEFLNG A-Z\n", "DEFDBL A-Z\n", "DEFSTR A-Z\n", "DEFSTR W\n"] {
+            for (form, second) in [(0, "REDIM Words(1 TO 3)"), (1, "REDIM Words(0 TO 4, 1 TO 2)"), (2, "REDIM SHARED Words(1 TO 3)")] {
+                let first = if form == 2 { format!("REDIM SHARED Words(1 TO 2) AS {}", ty) } else { format!("REDIM Words(1 TO 2) AS {}", ty) };
+                let (c1, c3) = if form == 1 { ("Words(1, 1)", "Words(3, 2)") } else { ("Words(1)", "Words(3)") };
+                let old = if form == 1 { "Words(1)" } else { c1 };
+                out.push((
+                    format!("{head}{first}\n{old} = {v1}\nPRINT {old};\n{second}\n{c3} = {v2}\n{c1} = {v1}\nPRINT {c3}\nPRINT \"done\"\n", head = head, first = first, old = old, v1 = v1, second = second, c3 = c3, v2 = v2, c1 = c1),
+                    format!("{}\r\ndone\r\n", shown),
+                ));
+            }
+        }
+    }
+    out
+}
+
 fn verdict(o: &vcore::outcome::Outcome) -> String {
     match &o.end {
         End::RuntimeError { code, kind, .. } => format!("runtime:{:?}:{}", code, kind),
@@ -753,6 +826,25 @@ pub fn worker(case: &Value) -> Value {
                     acc.hit("accepted-and-ran-as-written");
                 } else {
                     acc.bad(format!("C12|deftype-between|{}", o.end.class()), format!("a DEFtype statement between subprogram definitions changed what stands before it: expected {:?} and a normal end, got {:?} and {}", want, o.stdout_str(), o.end.class()), text, json!({"g": g}));
+                }
+            }
+        }
+        "byref" => {
+            for call in 0..BYREF_CALLS.len() {
+                for operand in 0..BYREF_OPERANDS.len() {
+                    n += 1;
+                    byref_case(call, operand, &mut acc, json!({"g": g}));
+                }
+            }
+        }
+        "redim-type" => {
+            for (text, want) in redim_keeps_type_programs() {
+                n += 1;
+                let o = run_pipeline(&text, &RunOpts { budget: 200_000, ..RunOpts::default() });
+                if matches!(o.end, End::Normal) && o.stdout_str() == want {
+                    acc.hit("accepted-and-ran-as-written");
+                } else {
+                    acc.bad(format!("C12|redim-type|{}", o.end.class()), format!("a REDIM without AS after a REDIM ... AS type changed the element type: expected {:?} and a normal end, got {:?} and {}", want, o.stdout_str(), o.end.class()), text, json!({"g": g}));
                 }
             }
         }
@@ -890,6 +982,8 @@ pub fn drive(tier: &str) -> i32 {
     }
     cases.push(json!({"g": "call-pairs"}));
     cases.push(json!({"g": "deftype-between"}));
+    cases.push(json!({"g": "byref"}));
+    cases.push(json!({"g": "redim-type"}));
     let total_cases = cases.len();
     let cap = run.wall_cap_s;
     let t0 = run.reporter.start;
@@ -918,7 +1012,7 @@ pub fn drive(tier: &str) -> i32 {
     }
     groups.push(super::run_text_group(&mut run, &pool, "statement templates x operand menu: soundness, renaming", &stmts, 40, &extra));
     let mut ev = Evidence::new("exploration");
-    ev.set("rule", "typed: every operand, unary and binary expression (13 operators) over 10 (thorough 18) operands of all kinds (a whole record, literals, variables of every numeric type, strings, fixed-length strings as variable / array element / record member, array elements, user FUNCTION results, built-in results) in 66 syntactic positions (the 23 core positions with all 13 binary operators, the others with + < AND MOD) (assignments to every kind of target, PRINT list, parentheses, IF / WHILE / DO conditions, SELECT subject, CASE lists, FOR start / limit / step, array subscripts and bounds, the subscript of an array-of-records element read and assigned through a field, by-value SUB arguments, FUNCTION arguments inside a subscript, built-in arguments, ELSEIF / single-line IF / DO conditions, CASE IS and both ends of a CASE range, PRINT USING / LPRINT lists, REDIM and lower bounds, second and nested subscripts, subscripts of READ / INPUT / INPUT # / LINE INPUT targets and of a FOR counter, the arguments of the file statements (OPEN name and LEN, FIELD width, LSET value, GET / PUT record number, KILL, NAME) and of LOCATE / COLOR / VIEW PRINT / DEF SEG / POKE / PEEK / ENVIRON): a kind model (numeric / string / ill-kinded) decides which programs must be rejected with a type error in the statement that holds the expression; accepted programs are executed and must not raise Type mismatch (13) nor panic. calls: 9 ill-formed calls of user-defined and built-in functions (argument count, argument type, by-reference type) bare, in parentheses, as an operand, inside a subscript and as an argument, in each of the 66 positions: rejected with the matching error at the statement's row. call-pairs: 10 pairs (a valid call, an ill-formed call of the same subprogram whose arguments have the same static types) in the orders valid-invalid, invalid-valid, valid-valid-invalid: the ill-formed call is rejected at its row whatever precedes it. corpus: every harvested text, generated control program and statement template is run (soundness oracle outside READ / INPUT / PRINT USING statements), renamed consistently in three ways (every user-chosen word component gets a suffix, first letter and type suffix kept — twice; every first letter replaced by the next letter that has the same default type under the program's DEFtype statements): same verdict and output; every accepted one is edited once at every applicable site (numeric literal next to * or / -> string literal, GOTO / GOSUB target -> missing label, NEXT counter -> another name, label line / DIM line duplicated, one more argument in a SUB call): rejected, and where the error is of the edit's family it is located at the edited row.");
+    ev.set("rule", "typed: every operand, unary and binary expression (13 operators) over 10 (thorough 18) operands of all kinds (a whole record, literals, variables of every numeric type, strings, fixed-length strings as variable / array element / record member, array elements, user FUNCTION results, built-in results) in 66 syntactic positions (the 23 core positions with all 13 binary operators, the others with + < AND MOD) (assignments to every kind of target, PRINT list, parentheses, IF / WHILE / DO conditions, SELECT subject, CASE lists, FOR start / limit / step, array subscripts and bounds, the subscript of an array-of-records element read and assigned through a field, by-value SUB arguments, FUNCTION arguments inside a subscript, built-in arguments, ELSEIF / single-line IF / DO conditions, CASE IS and both ends of a CASE range, PRINT USING / LPRINT lists, REDIM and lower bounds, second and nested subscripts, subscripts of READ / INPUT / INPUT # / LINE INPUT targets and of a FOR counter, the arguments of the file statements (OPEN name and LEN, FIELD width, LSET value, GET / PUT record number, KILL, NAME) and of LOCATE / COLOR / VIEW PRINT / DEF SEG / POKE / PEEK / ENVIRON): a kind model (numeric / string / ill-kinded) decides which programs must be rejected with a type error in the statement that holds the expression; accepted programs are executed and must not raise Type mismatch (13) nor panic. calls: 9 ill-formed calls of user-defined and built-in functions (argument count, argument type, by-reference type) bare, in parentheses, as an operand, inside a subscript and as an argument, in each of the 66 positions: rejected with the matching error at the statement's row. call-pairs: 10 pairs (a valid call, an ill-formed call of the same subprogram whose arguments have the same static types) in the orders valid-invalid, invalid-valid, valid-valid-invalid: the ill-formed call is rejected at its row whatever precedes it. byref: 22 operands (INTEGER / string / other numeric storage as variable, record member, array element, member of an array-of-records element; whole records, array names without subscripts) passed without parentheses in 8 call forms to INTEGER and STRING parameters: storage of the parameter's type is accepted and runs, storage of another type is rejected with a type error at the row, for whole records / arrays only soundness is judged. redim-type: REDIM x(...) AS each of 5 types, then a REDIM of x that leaves the type out (same shape, two dimensions, SHARED) under 6 default-type settings: accepted, and the element type is kept (expected output). corpus: every harvested text, generated control program and statement template is run (soundness oracle outside READ / INPUT / PRINT USING statements), renamed consistently in three ways (every user-chosen word component gets a suffix, first letter and type suffix kept — twice; every first letter replaced by the next letter that has the same default type under the program's DEFtype statements): same verdict and output; every accepted one is edited once at every applicable site (numeric literal next to * or / -> string literal, GOTO / GOSUB target -> missing label, NEXT counter -> another name, label line / DIM line duplicated, one more argument in a SUB call): rejected, and where the error is of the edit's family it is located at the edited row.");
     ev.set("exhaustive", !run.capped);
     ev.set("groups", json!(groups));
     ev.set("plan", json!({"typed_expressions": nexpr, "positions": CONTEXTS.len(), "ill_formed_calls": ctotal}));
